@@ -54,6 +54,7 @@ impl Prop for C10 {
             "no_query_message",
             "array_formatter",
             "mandated_query_in_message",
+            "finish_called_after_every_datum",
         ];
         v.into_iter().map(String::from).collect()
     }
@@ -101,6 +102,8 @@ impl Prop for C10 {
                     for p in u.plan.pulls.iter_mut() {
                         p.req = rng.chance(1, 2);
                     }
+                    // some handlers check for a full buffer after every datum
+                    u.plan.finish_each = rng.chance(1, 5);
                     u
                 };
                 let mut u = u;
@@ -182,6 +185,9 @@ impl Prop for C10 {
                 }
                 if !pattern.contains(&1) {
                     stats.probe("no_query_message");
+                }
+                if s.msg.units.iter().any(|u| u.query && u.plan.finish_each && u.plan.data.len() >= 2) {
+                    stats.probe("finish_called_after_every_datum");
                 }
                 if matches!(s.fmt, FmtCfg::Array { .. }) {
                     stats.probe("array_formatter");
